@@ -152,12 +152,18 @@ def plan(tier):
             shards.append({"fault": f, "location": loc})
     shards += H.plan_shards(['faults'])
     shards += [{"kind": "rf-prints", "part": p, "parts": 4} for p in range(4)]
+    shards += [{"kind": "scale", "part": p, "parts": 8} for p in range(8)]
     return shards
 
 
 def cases(shard, tier):
     if shard.get("kind") == "call-histories":
         yield from H.cases_of(shard)
+        return
+    if shard.get("kind") == "scale":
+        for i, c in enumerate(scale_cases(tier)):
+            if i % shard["parts"] == shard["part"]:
+                yield c
         return
     if shard.get("kind") == "rf-prints":
         for i, c in enumerate(rf_cases()):
@@ -251,7 +257,84 @@ def check_rf_prints(case, R: engine.Acc):
         ws.remove(base)
 
 
+# ---------------------------------------------------------------------------------------------------------------
+# scale: files larger than the usual I/O block sizes whose line endings / multi-byte characters sit exactly on a block boundary,
+# namespaces with many definitions, long dependency chains
+SCALE_TAILS = {
+    "print": (["uint8 a", "@print 7", "# c", "@print 8", "@sealed"], None, [[2, "7"], [4, "8"]]),
+    "assert": (["uint8 a", "", "@print 7", "@assert 1 == 2", "@sealed"], 4, [[3, "7"]]),
+    "bad-width": (["@sealed", "uint8 a", "uint65 wide"], 3, []),
+}
+
+
+def scale_cases(tier):
+    from ..gen import scale as S
+
+    bs = S.BOUNDARIES if tier != "quick" else S.BOUNDARIES[:5]
+    for b in bs:
+        for what, eol in (("crlf", "\r\n"), ("cr", "\r"), ("utf8-2", "\n"), ("utf8-3", "\r\n"), ("utf8-4", "\r"), ("utf8-2", "\r\n")):
+            for tail in SCALE_TAILS:
+                for loc in ("target", "dependency"):
+                    yield {"kind": "scale-file", "boundary": b, "what": what, "eol": eol, "tail": tail, "location": loc}
+    for n in (9, 17, 65, 66, 130):
+        for legacy in (0, 3):
+            yield {"kind": "scale-wide", "n": n, "legacy": legacy}
+    for n in (8, 33, 60):
+        yield {"kind": "scale-chain", "n": n}
+
+
+def check_scale(case, R: engine.Acc):
+    from ..gen import scale as S
+
+    R.case(case, nontrivial=True, sample=(case["kind"] == "scale-file" and case["boundary"] == 8192 and case["what"] == "crlf" and case["tail"] == "assert" and len(R.samples) < 2))
+    if case["kind"] == "scale-file":
+        tail, fault_at, prints = SCALE_TAILS[case["tail"]]
+        text, first = S.straddling_text(case["boundary"], case["what"], tail, case["eol"])
+        if case["location"] == "target":
+            files, root, lookups, fpath, ref_prints = {"rns/T.1.0.dsdl": text.encode("utf-8")}, "rns", [], "rns/T.1.0.dsdl", []
+        else:
+            files = {"rns/T.1.0.dsdl": referrer_text("lk.Dep.1.0", 3, "lf").encode(), "lk/Dep.1.0.dsdl": text.encode("utf-8")}
+            root, lookups, fpath, ref_prints = "rns", ["lk"], "lk/Dep.1.0.dsdl", referrer_prints("rns/T.1.0.dsdl", 3)
+        o = api.read_namespace_tree(files, root, lookups, timeout=60)
+        exp_prints = sorted([[fpath, first + l - 1, t] for l, t in prints] + (ref_prints if fault_at is None else []))
+        if fault_at is None:
+            if o.error is not None:
+                R.violation("large-definition-rejected:%s" % o.error["cls"], "harness: the definition is valid", case, observed=o.error)
+            elif sorted(o.prints) != exp_prints:
+                R.violation("print-line-wrong:large-file", "@print is delivered exactly once with the path and line of the directive, wherever the file's line endings and multi-byte characters fall", case, observed=sorted(o.prints), expected=exp_prints)
+            else:
+                R.outcome("scale-ok")
+            return
+        e = o.error
+        if e is None or not e["ide"]:
+            R.violation("large-file-fault-not-reported" if e is None else "foreign-exception:%s@%s" % (e["cls"], e.get("culprit")), "the fault is reported as InvalidDefinitionError", case, observed=e)
+        elif e["path"] != fpath or (e["line"] is not None and e["line"] != first + fault_at - 1):
+            R.violation("error-line-wrong:large-file", "a reported line is the 1-based line of the offending statement, wherever the file's line endings and multi-byte characters fall", case, observed={"path": e["path"], "line": e["line"]}, expected={"path": fpath, "line": first + fault_at - 1})
+        else:
+            mine = sorted(p for p in o.prints if p[0] == fpath)
+            if mine != sorted([fpath, first + l - 1, t] for l, t in prints):
+                R.violation("print-line-wrong:large-file", "@print before the fault is delivered once with its line", case, observed=mine, expected=prints)
+            else:
+                R.outcome("scale-ok")
+        return
+    if case["kind"] == "scale-wide":
+        files, names, prints = S.wide_namespace(case["n"], case["legacy"])
+    else:
+        files, names, prints = S.chain_namespace(case["n"])
+    root = next(iter(files)).split("/")[0]
+    o = api.read_namespace_tree(files, root, timeout=120)
+    exp = sorted([p] + v for p, v in prints.items())
+    if o.error is not None:
+        R.violation("large-namespace-rejected:%s" % o.error["cls"], "harness: the namespace is valid", case, observed=o.error)
+    elif sorted(o.prints) != exp:
+        R.violation("print-delivered-%d-times:large-namespace" % len(o.prints), "@print is delivered exactly once per directive, however many definitions are read between two uses of its definition", case, observed=sorted(o.prints), expected=exp)
+    else:
+        R.outcome("scale-ok")
+
+
 def check_case(case, R: engine.Acc):
+    if str(case.get("kind", "")).startswith("scale-"):
+        return check_scale(case, R)
     if case.get("kind") == "rf-prints":
         return check_rf_prints(case, R)
     if case.get("kind") == "call-history":
